@@ -9,8 +9,11 @@ import sys
 import time
 
 ROOT = pathlib.Path(__file__).resolve().parent.parent
-EVIDENCE_DIR = ROOT / "evidence"
-REPLAY_DIR = ROOT / "replays"
+# VERIF_OUT_DIR: trial runs against deliberately broken sources (tools/try_patch.sh, eval_seed*.sh) write their evidence
+# and replay files elsewhere, so that /verif/evidence always describes a run against /repo itself
+_OUT = pathlib.Path(os.environ["VERIF_OUT_DIR"]) if os.environ.get("VERIF_OUT_DIR") else ROOT
+EVIDENCE_DIR = _OUT / "evidence"
+REPLAY_DIR = _OUT / "replays"
 FINDINGS_FILE = ROOT / "known_findings.json"
 
 
@@ -77,7 +80,7 @@ def _matches(entry, sig):
 
 def finish(pid, tier, seed, level, part, t0, rule, bounds, assumptions, exhaustive=True, extra=None, conform=True):
     """write evidence, print KNOWN-FINDING / VIOLATION lines, return exit code"""
-    EVIDENCE_DIR.mkdir(exist_ok=True)
+    EVIDENCE_DIR.mkdir(parents=True, exist_ok=True)
     if conform and os.environ.get("VERIF_SKIP_CONFORMANCE") != "1":
         # binding of the environment model to real asyncio (DESIGN.md §2.6), counted in traces_validated_against_impl
         from . import conformance
@@ -115,7 +118,7 @@ def finish(pid, tier, seed, level, part, t0, rule, bounds, assumptions, exhausti
         return 2
     replay_paths = []
     if fresh:
-        REPLAY_DIR.mkdir(exist_ok=True)
+        REPLAY_DIR.mkdir(parents=True, exist_ok=True)
         for n, (k, v) in enumerate(fresh.items()):
             if n >= 8:
                 break
